@@ -99,5 +99,13 @@ def execute(case):
     return [font_exec.font_record(case)]
 
 
+def classify(rec, pfail, mfail, extra, rep):
+    if pfail != "none" and font_exec.isoadobe_prefix_failure(rec):
+        rep.known("F-C04-1", "compileOTF (CFF 1, cffsubr) of a font whose glyph order is a prefix of the ISOAdobe charset "
+                             "cannot be saved (AttributeError: charset); recorded under C04")
+        return "known:F-C04-1"
+    return None
+
+
 def nontrivial(rec):
     return bool(rec["req"]) or any(cp > 0xFFFF for v in rec["unicodes"].values() for cp in v)
